@@ -7,9 +7,9 @@ SUB, JUDGE = "build", "OFTrace"
 
 # family -> (quick: tags, stride), (thorough: tags, stride), expected minimum
 FAMILIES = {
-    "A1": (("{7}", 1), ("{7, 1000, 2000, 3000, 4000, 61}", 1), 200),
+    "A1": (("{7, 1000}", 1), ("{7, 1000, 2000, 3000, 4000, 61}", 1), 200),      # zero is "unset / default" for many fields: always in
     "A2": (("{7}", 9), ("{7, 2000, 61}", 1), 800),
-    "M1": (("{7, 2000}", 1), ("{7, 1000, 2000, 3000, 4000, 61}", 1), 100),
+    "M1": (("{7, 2000, 1000}", 1), ("{7, 1000, 2000, 3000, 4000, 61}", 1), 100),
     "M2": (("{7}", 11), ("{7, 1000, 2000}", 1), 400),
     "MR": (("{7}", 3), ("{7, 2000, 61}", 1), 100),          # the stride thins only the generic-builder part
     "I": (("{7}", 1), ("{7, 2000, 61}", 1), 500),
@@ -66,7 +66,7 @@ def run_families(ctx, prop, families=None, judge_parallel=6, sub=SUB, judge=JUDG
 
 
 # packet-header kinds under the construction judge (C06, C13): PktGen.tla family -> (quick stride, thorough stride, expected minimum at stride 1)
-PACKETS = {"VLAN": (1021, 251, 65536), "ETH": (1, 1, 40), "IP4": (1021, 251, 66000), "IP6": (211, 31, 1500), "FRAG": (509, 61, 16384), "TCP": (7, 1, 1024),
+PACKETS = {"VLAN": (1021, 251, 65536), "ETH": (1, 1, 40), "IP4": (1021, 251, 66000), "IP6": (89, 31, 1500), "FRAG": (509, 61, 16384), "TCP": (7, 1, 1024),
            "L4": (1, 1, 20), "IGMP": (1, 1, 80), "EXT": (1, 1, 100), "DL": (1, 1, 50), "DC": (1, 1, 40)}
 
 
